@@ -58,7 +58,25 @@ class World:
         self.counter_pos = self.disp.__dict__["counters"] + 4 * group_no
         self.wkc_pos = sg.__dict__["wkc_errors"]
         self.writers = list(sg.packet.on_the_fly)
-        self.expected = dict(sg.packet.counters)
+        # what a healthy bus answers, independent of the library's own
+        # expectation (packet.counters): one per terminal that processes the
+        # datagram - the terminals mapped into a logical datagram, or the one
+        # addressed terminal
+        from ebpfcat.terminals import AerotechBase
+        from . import frames as fr
+        n_in = sum(1 for t in sg.terminals if t.pdo_in_sz and (
+            t.use_fmmu or isinstance(t, AerotechBase)))
+        n_out = sum(1 for t, rw in sg.terminals.items()
+                    if rw and t.pdo_out_sz and t.use_fmmu
+                    and not isinstance(t, AerotechBase))
+        try:
+            length, ftype, dgs, end = fr.parse(bytes(sg.packet.assemble(
+                group_no, ethertype)))
+        except fr.FrameError:
+            dgs = []          # a group without process data
+        self.expected = {d.wkc_pos: {10: n_in, 11: n_out}.get(d.cmd, 1)
+                         for d in dgs[1:]}
+        self.library_expected = dict(sg.packet.counters)
         self.regions = []
         for t in terms:
             for sm, start in sg.pdo_assign.get(t, {}).items():
